@@ -11,6 +11,11 @@ from clastic.errors import ErrorHandler, ContextualErrorHandler, BadGateway
 from sim.core.base import Check, RunResult, Streams, canon
 from sim.core.gateway import make_environ, call_app
 from sim.worlds.chain import RT, make_function, make_mw_type, EXC_TYPES, OnionModel, dispatch_outcome
+from sim.core.sched import BatonScheduler
+from sim.core import runner
+import os
+
+WATCH = (os.path.join(runner.REPO, 'clastic') + os.sep, '<sinter', '<sim chain')
 
 PHASES = ('request', 'endpoint', 'render')
 HTTP_CLASSES = sorted(set(cerrors.__all__) | set(['NotFound', 'InternalServerError']))
@@ -174,7 +179,7 @@ class C08(Check):
     level_text = ('Every position of each generated stack is faulted once per run (fault_enumeration over positions); behaviours, '
                   'handlers, messages and histories are sampled by seed; each faulty request is followed by recovery probes.')
     level_note = 'Trusted: the outcome model (~60 lines, from the property text); the gateway monitor.'
-    required_probes = ('handler-installed-as-type-on-application-subclass', 'tracebacklimit-set', 'debug-handler-without-frames', 'other-application-in-process', 'escaped-original-exception', 'render-error-fallback', 'handler-replaced-error', 'recovered',
+    required_probes = ('concurrent-faulted-requests', 'handler-installed-as-type-on-application-subclass', 'tracebacklimit-set', 'debug-handler-without-frames', 'other-application-in-process', 'escaped-original-exception', 'render-error-fallback', 'handler-replaced-error', 'recovered',
                        'nonbreaking-http', 'huge-message')
 
     def gen_config(self, rng):
@@ -226,6 +231,26 @@ class C08(Check):
         # something happens to ANOTHER application of the same process (default handler, dev server with debugger)
         if rng.random() < 0.5:
             ops.insert(rng.randint(0, len(ops)), {'other_app': rng.choice(['serve-debugger', 'serve-plain', 'construct-debug', 'reraise-handler'])})
+        if rng.random() < 0.6:
+            # several requests, each with its own fault, in flight on the one application at the same time
+            sch = S['sched']
+            for _ in range(sch.choice([1, 1, 2])):
+                n = sch.choice([2, 2, 3])
+                batch = []
+                for _i in range(n):
+                    if sch.random() < 0.7:
+                        pos = sch.choice(positions)
+                        batch.append(req({pos: self.gen_fault(frng, pos in ('EP', 'RN', 'EP2', 'ITEM_GET', 'ITEM_POST'))}))
+                    else:
+                        batch.append({'method': sch.choice(['GET', 'DELETE', 'POST']), 'path': sch.choice(['/nope', '/only-post', '/item', '/decl', '/x']),
+                                      'accept': sch.choice(ACCEPTS), 'faults': {}})
+                gran = sch.choice(['line', 'line', 'ins'])
+                hi = 300 if gran == 'line' else 2000
+                names = ['T%d' % i for i in range(n)]
+                order = list(names)
+                sch.shuffle(order)
+                ops.insert(rng.randint(0, len(ops)), {'conc': batch, 'granularity': gran, 'order': order,
+                                                      'preempts': sorted([sch.randint(1, hi), sch.choice(['demote'] + names)] for _ in range(sch.randint(1, 6)))})
         for _ in range(2 if tier == 'quick' else 4):
             two = frng.sample(positions, min(2, len(positions)))
             ops.append(req(dict((p, self.gen_fault(frng, p in ('EP', 'RN', 'EP2'))) for p in two if p not in ('EP2', 'ITEM_GET', 'ITEM_POST'))))
@@ -304,6 +329,15 @@ class C08(Check):
                                 % (step, op['other_app'], snap, baseline), step)
                     break
                 continue
+            if 'conc' in op:
+                if not self.concurrent(app, cfg, op, step, res):
+                    break
+                snap = snapshot(3000 + step)
+                if snap != baseline:
+                    res.violate(K + 'no-recovery@concurrent', 'step %d: after a concurrent batch the healthy probes answer %s, before %s'
+                                % (step, snap, baseline), step)
+                    break
+                continue
             exp = expected(cfg, op)
             ex = self.one(app, cfg, op, step, res, 'req')
             trace = RT.trace.get(step, [])
@@ -367,6 +401,60 @@ class C08(Check):
                 res.probe('recovered')
         res.steps = len(plan['ops'])
         return res
+
+    def concurrent(self, app, cfg, op, step, res):
+        """Every request of the batch must get what the outcome model says for IT -- whatever the others do meanwhile."""
+        K = 'C08/'
+        RT.reset({})
+        got = {}
+        tasks = {}
+        for i, rq in enumerate(op['conc']):
+            seq = 5000 + step * 10 + i
+            faults = {}
+            for name, f in rq['faults'].items():
+                f = dict(f)
+                if 'msg' in f:
+                    f['msg'] = MSGS[f['msg']]
+                faults[name] = f
+            RT.seq_faults[seq] = faults
+            hdr = {'Accept': rq['accept']} if rq.get('accept') else {}
+            env = make_environ(rq['method'], rq['path'], headers=hdr, body=b'b' if rq['method'] == 'POST' else b'')
+
+            def task(i=i, seq=seq, env=env):
+                RT.set_seq(seq)
+                got[i] = call_app(app, env)
+            tasks['T%d' % i] = task
+        names = sorted(tasks)
+        order = [n for n in op.get('order', names) if n in names] + [n for n in names if n not in op.get('order', names)]
+        sched = BatonScheduler(order, op.get('preempts', []), op.get('granularity', 'line'), WATCH)
+        sched.run(tasks)
+        res.fire('preempt', len(sched.switches))
+        res.probe('concurrent-faulted-requests')
+        res.nontrivial = True
+        res.ev(step, 'conc', len(op['conc']), 'switches', len(sched.switches), [got[i].code if i in got else None for i in range(len(op['conc']))])
+        if sched.errors:
+            res.violate(K + 'thread-raised:%s' % type(list(sched.errors.values())[0]).__name__, '%r' % (sched.errors,), step)
+            return False
+        for i, rq in enumerate(op['conc']):
+            exp = expected(cfg, rq)
+            ex = got[i]
+            ctx = 'step %d %s %s handler=%s faults=%s, served concurrently with %s' % (
+                step, rq['method'], rq['path'], cfg['handler'], canon(rq['faults'])[:200],
+                [(o['method'], o['path'], canon(o['faults'])[:80]) for j, o in enumerate(op['conc']) if j != i])
+            if exp[0] == 'status':
+                if ex.escaped is not None:
+                    res.violate(K + 'concurrent/exception-escaped:%s' % type(ex.escaped).__name__, ctx + ' -> %r escaped; expected status %d' % (ex.escaped, exp[1]), step)
+                    return False
+                if ex.code != exp[1]:
+                    res.violate(K + 'concurrent/wrong-status:%s-not-%s' % (ex.code, exp[1]), ctx + ' -> status %s, expected %d' % (ex.status, exp[1]), step)
+                    return False
+                if ex.errors or not ex.iter_done:
+                    res.violate(K + 'concurrent/incomplete-response', ctx + ' -> %r' % (ex.errors[:1],), step)
+                    return False
+            elif ex.escaped is None:
+                res.violate(K + 'concurrent/not-reraised', ctx + ' -> status %s although the handler re-raises' % ex.status, step)
+                return False
+        return True
 
     @staticmethod
     def other_app(kind, res):
